@@ -971,6 +971,9 @@ pub fn err_class(e: &Error) -> &'static str {
         Error::MaxOpenInterestExceeded => "err_max_oi",
         Error::InvalidTokenBalance(..) => "err_token_balance",
         Error::UnableToGetFundingFactorEmptyOpenInterest => "err_funding_empty_oi",
+        // `gmsol_model::Error` gains variants (`Solana`, `Market`) when cargo unifies features with the chain engines
+        #[allow(unreachable_patterns)]
+        _ => "err_other",
     }
 }
 
